@@ -200,8 +200,9 @@ theorem similarity_merge_other (round32 : ℚ → ℚ) {g : AggGraph ℚ} (hI : 
 theorem isNN_merge {round32 : ℚ → ℚ} (hr : Monotone round32) {g : AggGraph ℚ} (hI : NbInv g.nb g.next)
     {a b c d : Nat} (hab : a ≠ b) (ha : a < g.next) (hb : b < g.next) (hca : c ≠ a) (hcb : c ≠ b)
     (hda : d ≠ a) (hdb : d ≠ b) (hcd : IsNN round32 g c d)
-    (hpa : 0 < wOf g.outW a ∧ 0 < wOf g.inW a) (hpb : 0 < wOf g.outW b ∧ 0 < wOf g.inW b)
-    (hpc : 0 < wOf g.outW c ∧ 0 < wOf g.inW c) (hpd : 0 < wOf g.outW d ∧ 0 < wOf g.inW d) :
+    (hwn : ∀ x, 0 ≤ wOf g.outW x ∧ 0 ≤ wOf g.inW x)
+    (hden : ∀ y, K g.nb c y = true → y ≠ c →
+      0 < wOf g.outW c * wOf g.inW y + wOf g.outW y * wOf g.inW c) :
     IsNN round32 (g.merge a b) c d := by
   have h4 : g.next ≠ a := by omega
   have h5 : g.next ≠ b := by omega
@@ -227,12 +228,11 @@ theorem isNN_merge {round32 : ℚ → ℚ} (hr : Monotone round32) {g : AggGraph
   have hsd' : similarity round32 (g.merge a b) c d = similarity round32 g c d :=
     similarity_merge_other round32 hI hab ha hb hca hcb hcz hda hdb hdz
   -- similarity to the new node: a mediant, rounded
-  have hd1 : 0 < wOf g.outW c * wOf g.inW a + wOf g.outW a * wOf g.inW c := by
-    have := mul_pos hpc.1 hpa.2; have := mul_pos hpa.1 hpc.2; linarith
-  have hd2 : 0 < wOf g.outW c * wOf g.inW b + wOf g.outW b * wOf g.inW c := by
-    have := mul_pos hpc.1 hpb.2; have := mul_pos hpb.1 hpc.2; linarith
-  have hdd : 0 < wOf g.outW c * wOf g.inW d + wOf g.outW d * wOf g.inW c := by
-    have := mul_pos hpc.1 hpd.2; have := mul_pos hpd.1 hpc.2; linarith
+  have hda0 : 0 ≤ wOf g.outW c * wOf g.inW a + wOf g.outW a * wOf g.inW c := by
+    have := mul_nonneg (hwn c).1 (hwn a).2; have := mul_nonneg (hwn a).1 (hwn c).2; linarith
+  have hdb0 : 0 ≤ wOf g.outW c * wOf g.inW b + wOf g.outW b * wOf g.inW c := by
+    have := mul_nonneg (hwn c).1 (hwn b).2; have := mul_nonneg (hwn b).1 (hwn c).2; linarith
+  have hdd : 0 < wOf g.outW c * wOf g.inW d + wOf g.outW d * wOf g.inW c := hden d hcd.adj hcd.ne
   have eO : wOf (g.merge a b).outW g.next = wOf g.outW a + wOf g.outW b := wOf_merge_new _ _ _ _
   have eI : wOf (g.merge a b).inW g.next = wOf g.inW a + wOf g.inW b := wOf_merge_new _ _ _ _
   have eOc : wOf (g.merge a b).outW c = wOf g.outW c := wOf_merge_other _ _ _ _ _ hca hcb hcz
@@ -240,46 +240,63 @@ theorem isNN_merge {round32 : ℚ → ℚ} (hr : Monotone round32) {g : AggGraph
   have eKz : getEntry (g.merge a b).nb c g.next = getEntry g.nb c a + getEntry g.nb c b := by
     show getEntry (mergeNb g.nb a b g.next) c g.next = _
     rw [hW]; simp [hca, hcb, hcz, h4, h5]
-  have hsz : similarity round32 (g.merge a b) c g.next =
+  have hsz : 0 < (wOf g.outW c * wOf g.inW a + wOf g.outW a * wOf g.inW c) +
+      (wOf g.outW c * wOf g.inW b + wOf g.outW b * wOf g.inW c) →
+      similarity round32 (g.merge a b) c g.next =
       some (round32 ((2 * getEntry g.nb c a + 2 * getEntry g.nb c b) /
         ((wOf g.outW c * wOf g.inW a + wOf g.outW a * wOf g.inW c) +
           (wOf g.outW c * wOf g.inW b + wOf g.outW b * wOf g.inW c)))) := by
-    have hden : 0 < wOf (g.merge a b).outW c * wOf (g.merge a b).inW g.next +
+    intro hpos
+    have hden' : 0 < wOf (g.merge a b).outW c * wOf (g.merge a b).inW g.next +
         wOf (g.merge a b).outW g.next * wOf (g.merge a b).inW c := by
       rw [eO, eI, eOc, eIc]
-      have := mul_pos hpc.1 hpa.2; have := mul_pos hpa.1 hpc.2
-      have := mul_pos hpc.1 hpb.2; have := mul_pos hpb.1 hpc.2
-      nlinarith
-    rw [similarity_some round32 _ _ _ hden, eO, eI, eOc, eIc, eKz]
+      have e : wOf g.outW c * (wOf g.inW a + wOf g.inW b) + (wOf g.outW a + wOf g.outW b) * wOf g.inW c =
+          (wOf g.outW c * wOf g.inW a + wOf g.outW a * wOf g.inW c) +
+            (wOf g.outW c * wOf g.inW b + wOf g.outW b * wOf g.inW c) := by ring
+      rw [e]; exact hpos
+    rw [similarity_some round32 _ _ _ hden', eO, eI, eOc, eIc, eKz]
     congr 2
     ring
-  have hsa := similarity_some round32 g c a hd1
-  have hsb := similarity_some round32 g c b hd2
   have hsdd := similarity_some round32 g c d hdd
   have hnn := hI.nonneg
-  -- each part is at most the similarity to `d`
-  have hpart : ∀ (e : Nat) (den : ℚ), 0 < den → e ≠ c →
-      similarity round32 g c e = some (round32 (2 * getEntry g.nb c e / den)) →
-      round32 (2 * getEntry g.nb c e / den) ≤ round32 (2 * getEntry g.nb c d /
-        (wOf g.outW c * wOf g.inW d + wOf g.outW d * wOf g.inW c)) := by
-    intro e den hden hec hse
-    by_cases hKe : K g.nb c e = true
-    · have := hcd.max e hKe hec
-      rw [hse, hsdd] at this
-      exact simGt_some.mp this
-    · have h0 : getEntry g.nb c e = 0 := getEntry_of_not_K (by simpa using hKe)
-      rw [h0]
-      apply hr
-      simp only [mul_zero, zero_div]
-      exact div_nonneg (mul_nonneg (by norm_num) (hnn c d)) (le_of_lt hdd)
-  have hmax_z : simGt (similarity round32 (g.merge a b) c g.next) (similarity round32 g c d) = false := by
-    rw [hsz, hsdd, simGt_some]
-    have hmed := mediant_le_max (p1 := 2 * getEntry g.nb c a) (p2 := 2 * getEntry g.nb c b) hd1 hd2
-    have h1 := hr hmed
-    rw [hr.map_max] at h1
-    have ha' := hpart a _ hd1 (Ne.symm hca) hsa
-    have hb' := hpart b _ hd2 (Ne.symm hcb) hsb
-    exact le_trans h1 (max_le ha' hb')
+  -- an adjacent part is at most the similarity to `d`
+  have hpart : ∀ (e : Nat), K g.nb c e = true → e ≠ c →
+      round32 (2 * getEntry g.nb c e / (wOf g.outW c * wOf g.inW e + wOf g.outW e * wOf g.inW c)) ≤
+        round32 (2 * getEntry g.nb c d / (wOf g.outW c * wOf g.inW d + wOf g.outW d * wOf g.inW c)) := by
+    intro e hKe hec
+    have hde := hden e hKe hec
+    have := hcd.max e hKe hec
+    rw [similarity_some round32 g c e hde, hsdd] at this
+    exact simGt_some.mp this
+  have hmax_z : (K g.nb a c || K g.nb b c) = true →
+      simGt (similarity round32 (g.merge a b) c g.next) (similarity round32 g c d) = false := by
+    intro hz
+    by_cases hKa : K g.nb c a = true
+    · have hd1 := hden a hKa (Ne.symm hca)
+      by_cases hKb : K g.nb c b = true
+      · have hd2 := hden b hKb (Ne.symm hcb)
+        rw [hsz (by linarith), hsdd, simGt_some]
+        have hmed := mediant_le_max (p1 := 2 * getEntry g.nb c a) (p2 := 2 * getEntry g.nb c b) hd1 hd2
+        have h1 := hr hmed
+        rw [hr.map_max] at h1
+        exact le_trans h1 (max_le (hpart a hKa (Ne.symm hca)) (hpart b hKb (Ne.symm hcb)))
+      · have h0 : getEntry g.nb c b = 0 := getEntry_of_not_K (by simpa using hKb)
+        rw [hsz (by linarith), hsdd, simGt_some, h0]
+        refine le_trans (hr ?_) (hpart a hKa (Ne.symm hca))
+        simp only [mul_zero, add_zero]
+        exact div_le_div_of_nonneg_left (mul_nonneg (by norm_num) (hnn c a)) hd1 (by linarith)
+    · have hKb : K g.nb c b = true := by
+        rw [hI.sym a c, hI.sym b c] at hz
+        simp only [Bool.or_eq_true] at hz
+        rcases hz with h | h
+        · exact absurd h hKa
+        · exact h
+      have hd2 := hden b hKb (Ne.symm hcb)
+      have h0 : getEntry g.nb c a = 0 := getEntry_of_not_K (by simpa using hKa)
+      rw [hsz (by linarith), hsdd, simGt_some, h0]
+      refine le_trans (hr ?_) (hpart b hKb (Ne.symm hcb))
+      simp only [mul_zero, zero_add]
+      exact div_le_div_of_nonneg_left (mul_nonneg (by norm_num) (hnn c b)) hd2 (by linarith)
   refine ⟨?_, hcd.ne, ?_, ?_⟩
   · rw [hKc]; simp [hda, hdb, hdz, hcd.adj]
   · intro y hy hyc
@@ -291,7 +308,8 @@ theorem isNN_merge {round32 : ℚ → ℚ} (hr : Monotone round32) {g : AggGraph
       have hyb : y ≠ b := fun e => h1 (Or.inr e)
       rw [hsd']
       by_cases hyz : y = g.next
-      · rw [hyz]; exact hmax_z
+      · rw [if_pos hyz] at hy
+        rw [hyz]; exact hmax_z hy
       · simp only [hyz, if_false] at hy
         rw [similarity_merge_other round32 hI hab ha hb hca hcb hcz hya hyb hyz]
         exact hcd.max y hy hyc
@@ -311,12 +329,15 @@ theorem isNN_merge {round32 : ℚ → ℚ} (hr : Monotone round32) {g : AggGraph
 
 /-! ### the invariant of the chain loop -/
 
+/-- the sum of the two products of node weights in the denominator of `similarity` -/
+def den (g : AggGraph ℚ) (x y : Nat) : ℚ := wOf g.outW x * wOf g.inW y + wOf g.outW y * wOf g.inW x
+
 structure RetInv (round32 : ℚ → ℚ) (n : Nat) (st : PState ℚ) : Prop where
   tinv : TInv n st
-  active_row : ∀ x ∈ Dict.keys st.g.sizes, ∃ y, K st.g.nb x y = true
+  active_row : ∀ x ∈ Dict.keys st.g.sizes, ∃ rowX, st.g.nb.get? x = some rowX
   nbr_active : ∀ x y, x ∈ Dict.keys st.g.sizes → K st.g.nb x y = true → y ≠ x → y ∈ Dict.keys st.g.sizes
-  wpos : ∀ x, x ∈ Dict.keys st.g.sizes → (∃ y, y ≠ x ∧ K st.g.nb x y = true) →
-    0 < wOf st.g.outW x ∧ 0 < wOf st.g.inW x
+  wnn : ∀ x, 0 ≤ wOf st.g.outW x ∧ 0 ≤ wOf st.g.inW x
+  denpos : ∀ x y, x ∈ Dict.keys st.g.sizes → K st.g.nb x y = true → y ≠ x → 0 < den st.g x y
   chain_active : ∀ x ∈ st.chain, x ∈ Dict.keys st.g.sizes
   chain_nodup : st.chain.Nodup
   nn : NNChain round32 st.g st.chain
@@ -329,6 +350,86 @@ theorem K_get {nb : Dict (Dict ℚ)} {x y : Nat} (h : K nb x y = true) : ∃ row
     unfold K row at h
     rw [hx] at h
     simp [Dict.contains, Dict.get?] at h
+
+/-! the outer dict keeps its other keys through a merge -/
+
+theorem isSome_set {β : Type} (d : Dict β) (k : Nat) (v : β) {x : Nat} (h : (d.get? x).isSome = true) :
+    ((d.set k v).get? x).isSome = true := by
+  rw [Dict.get?_set]; split
+  · rfl
+  · exact h
+
+theorem isSome_erase {β : Type} (d : Dict β) (k : Nat) {x : Nat} (hx : x ≠ k) (h : (d.get? x).isSome = true) :
+    ((d.erase k).get? x).isSome = true := by
+  rw [Dict.get?_erase, if_neg hx]; exact h
+
+theorem isSome_foldl {β γ : Type} (f : Dict β → γ → Dict β) {x : Nat}
+    (hf : ∀ (d : Dict β) (e : γ), (Dict.get? d x).isSome = true → (Dict.get? (f d e) x).isSome = true) :
+    ∀ (l : List γ) (d : Dict β), (Dict.get? d x).isSome = true → (Dict.get? (l.foldl f d) x).isSome = true := by
+  intro l
+  induction l with
+  | nil => intro d h; exact h
+  | cons e es ih => intro d h; exact ih _ (hf d e h)
+
+theorem isSome_foldl_mem {β γ : Type} (f : Dict β → γ → Dict β) {x : Nat} :
+    ∀ (l : List γ), (∀ (d : Dict β) (e : γ), e ∈ l → (Dict.get? d x).isSome = true →
+      (Dict.get? (f d e) x).isSome = true) →
+    ∀ (d : Dict β), (Dict.get? d x).isSome = true → (Dict.get? (l.foldl f d) x).isSome = true := by
+  intro l
+  induction l with
+  | nil => intro _ d h; exact h
+  | cons e es ih =>
+    intro hf d h
+    exact ih (fun d' e' he' => hf d' e' (List.mem_cons_of_mem _ he')) _ (hf d e List.mem_cons_self h)
+
+theorem mergeNb_isSome (nb : Dict (Dict ℚ)) (a b new : Nat) {x : Nat} (hxa : x ≠ a) (hxb : x ≠ b)
+    (h : (nb.get? x).isSome = true) : ((mergeNb nb a b new).get? x).isSome = true := by
+  have hset : ∀ (d : Dict (Dict ℚ)) (p q : Nat) (v : ℚ), (Dict.get? d x).isSome = true →
+      (Dict.get? (setEntry d p q v) x).isSome = true :=
+    fun d p q v hd => isSome_set d p _ hd
+  have hdel : ∀ (d : Dict (Dict ℚ)) (p q : Nat), (Dict.get? d x).isSome = true →
+      (Dict.get? (delEntry d p q) x).isSome = true :=
+    fun d p q hd => isSome_set d p _ hd
+  have hcommon : ∀ (d : Dict (Dict ℚ)) (e : Nat), (Dict.get? d x).isSome = true →
+      (Dict.get? (commonStep a b new d e) x).isSome = true := by
+    intro d e hd
+    unfold commonStep
+    exact hset _ _ _ _ (hdel _ _ _ (hdel _ _ _ (hset _ _ _ _ (hdel _ _ _ (hdel _ _ _ hd)))))
+  have hother : ∀ (node : Nat) (d : Dict (Dict ℚ)) (e : Nat), (Dict.get? d x).isSome = true →
+      (Dict.get? (otherStep node new d e) x).isSome = true := by
+    intro node d e hd
+    unfold otherStep
+    exact hset _ _ _ _ (hdel _ _ _ (hset _ _ _ _ (hdel _ _ _ hd)))
+  have hself : ∀ (node : Nat) (d : Dict (Dict ℚ)) (e : Nat), (Dict.get? d x).isSome = true →
+      (Dict.get? (selfStep node new d e) x).isSome = true := by
+    intro node d e hd
+    unfold selfStep
+    split
+    · exact hset _ _ _ _ hd
+    · exact hd
+  have hnode : ∀ (nodes : List Nat) (d : Dict (Dict ℚ)) (node : Nat), (node = a ∨ node = b) →
+      (Dict.get? d x).isSome = true → (Dict.get? (nodeStep a b new nodes d node) x).isSome = true := by
+    intro nodes d node hn hd
+    unfold nodeStep
+    have hxn : x ≠ node := by rcases hn with e | e <;> rw [e] <;> assumption
+    exact isSome_erase _ _ hxn (isSome_foldl _ (hself node) _ _ (isSome_foldl _ (hother node) _ _ hd))
+  have hnodes : ∀ e ∈ (if a = b then [a] else [a, b]), e = a ∨ e = b := by
+    intro e he
+    split at he
+    · simp only [List.mem_cons, List.not_mem_nil, or_false] at he; exact Or.inl he
+    · simp only [List.mem_cons, List.not_mem_nil, or_false] at he; exact he
+  have h0 := isSome_set nb new [(new, (0 : ℚ))] h
+  unfold mergeNb
+  refine isSome_foldl_mem _ _ (fun d e he hd => hnode _ d e (hnodes e he) hd) _ ?_
+  exact isSome_foldl _ hcommon _ _ h0
+
+theorem wOf_merge_gone (d : Dict ℚ) (n1 n2 new : Nat) (v : ℚ) {x : Nat} (hx : x = n1 ∨ x = n2) (hn : x ≠ new) :
+    wOf (((d.erase n1).erase n2).set new v) x = 0 := by
+  unfold wOf
+  rw [Dict.get?_set, if_neg hn, Dict.get?_erase]
+  by_cases h2 : x = n2
+  · rw [if_pos h2]; rfl
+  · rw [if_neg h2, Dict.get?_erase, if_pos (hx.resolve_right h2)]; rfl
 
 theorem isNN_congr {round32 : ℚ → ℚ} {g g' : AggGraph ℚ} (h1 : g'.nb = g.nb) (h2 : g'.outW = g.outW)
     (h3 : g'.inW = g.inW) {x d : Nat} (h : IsNN round32 g x d) : IsNN round32 g' x d := by
@@ -369,10 +470,9 @@ theorem mem_keys_merge_sizes {g : AggGraph ℚ} {a b s1 s2 : Nat} (h1 : g.sizes.
 
 theorem nnChain_merge {round32 : ℚ → ℚ} (hr : Monotone round32) {g : AggGraph ℚ} (hI : NbInv g.nb g.next)
     {a b : Nat} (hab : a ≠ b) (ha : a < g.next) (hb : b < g.next)
-    (hpa : 0 < wOf g.outW a ∧ 0 < wOf g.inW a) (hpb : 0 < wOf g.outW b ∧ 0 < wOf g.inW b)
-    :
+    (hwn : ∀ x, 0 ≤ wOf g.outW x ∧ 0 ≤ wOf g.inW x) :
     ∀ l, NNChain round32 g l → (∀ x ∈ l, x ≠ a ∧ x ≠ b) →
-      (∀ x ∈ l, (∃ y, y ≠ x ∧ K g.nb x y = true) → 0 < wOf g.outW x ∧ 0 < wOf g.inW x) →
+      (∀ x ∈ l, ∀ y, K g.nb x y = true → y ≠ x → 0 < den g x y) →
       NNChain round32 (g.merge a b) l := by
   intro l
   induction l with
@@ -384,11 +484,9 @@ theorem nnChain_merge {round32 : ℚ → ℚ} (hr : Monotone round32) {g : AggGr
     | cons z0 bs =>
       have h1 := hl z1 List.mem_cons_self
       have h0 := hl z0 (List.mem_cons_of_mem _ List.mem_cons_self)
-      have p0 := hw z0 (List.mem_cons_of_mem _ List.mem_cons_self) ⟨z1, h.1.ne, h.1.adj⟩
-      have p1 := hw z1 List.mem_cons_self ⟨z0, Ne.symm h.1.ne, by rw [hI.sym]; exact h.1.adj⟩
-      exact ⟨isNN_merge hr hI hab ha hb h0.1 h0.2 h1.1 h1.2 h.1 hpa hpb p0 p1,
+      have p0 := hw z0 (List.mem_cons_of_mem _ List.mem_cons_self)
+      exact ⟨isNN_merge hr hI hab ha hb h0.1 h0.2 h1.1 h1.2 h.1 hwn p0,
         ih h.2 (fun x hx => hl x (List.mem_cons_of_mem _ hx)) (fun x hx => hw x (List.mem_cons_of_mem _ hx))⟩
-
 
 /-- **one iteration does not raise** and keeps the invariant -/
 theorem chainStep_ret {n : Nat} {round32 : ℚ → ℚ} (hr : Monotone round32) (n0 : Nat) {st : PState ℚ}
@@ -400,11 +498,12 @@ theorem chainStep_ret {n : Nat} {round32 : ℚ → ℚ} (hr : Monotone round32) 
   simp only at hP hI
   have hrow := h.active_row
   have hnbr := h.nbr_active
-  have hwp := h.wpos
+  have hwn := h.wnn
+  have hdp := h.denpos
   have hact := h.chain_active
   have hnd := h.chain_nodup
   have hnn := h.nn
-  simp only at hrow hnbr hwp hact hnd hnn
+  simp only at hrow hnbr hwn hdp hact hnd hnn
   unfold chainStep
   cases chain with
   | nil =>
@@ -414,15 +513,14 @@ theorem chainStep_ret {n : Nat} {round32 : ℚ → ℚ} (hr : Monotone round32) 
     | cons p tl =>
       obtain ⟨node, sz⟩ := p
       right
-      refine ⟨_, rfl, ⟨⟨⟨L, hP⟩, hI⟩, hrow, hnbr, hwp, ?_, by simp, trivial⟩⟩
+      refine ⟨_, rfl, ⟨⟨⟨L, hP⟩, hI⟩, hrow, hnbr, hwn, hdp, ?_, by simp, trivial⟩⟩
       intro x hx
       simp only [List.mem_cons, List.not_mem_nil, or_false] at hx
       rw [hx, hsz]; simp [Dict.keys]
   | cons node rest =>
     simp only
     have hnode := hact node List.mem_cons_self
-    obtain ⟨y0, hy0⟩ := hrow node hnode
-    obtain ⟨rowNode, hrowN⟩ := K_get hy0
+    obtain ⟨rowNode, hrowN⟩ := hrow node hnode
     obtain ⟨szN, hszN⟩ := (Hier.mem_keys_iff _ _).mp hnode
     rw [hrowN]
     simp only
@@ -431,18 +529,17 @@ theorem chainStep_ret {n : Nat} {round32 : ℚ → ℚ} (hr : Monotone round32) 
       -- a connected component is finished
       simp only [hszN]
       right
-      refine ⟨_, rfl, ⟨⟨⟨L, pinv_comp hP hszN⟩, hI⟩, ?_, ?_, ?_, ?_, (List.nodup_cons.mp hnd).2, ?_⟩⟩
+      refine ⟨_, rfl, ⟨⟨⟨L, pinv_comp hP hszN⟩, hI⟩, ?_, ?_, hwn, ?_, ?_, (List.nodup_cons.mp hnd).2, ?_⟩⟩
       · intro x hx; exact hrow x (Dict.mem_keys_erase.mp hx).1
       · intro x y hx hK hne
         have hx' := (Dict.mem_keys_erase.mp hx).1
         refine Dict.mem_keys_erase.mpr ⟨hnbr x y hx' hK hne, ?_⟩
         intro e
         subst e
-        -- `x` would be a neighbour of the finished node
         have hK' : K g.nb y x = true := by rw [hI.sym]; exact hK
         have : x ∈ rowNode.keys.filter (· != y) := (mem_nbrs_iff hrowN).mpr ⟨hK', Ne.symm hne⟩
         rw [hfl] at this; cases this
-      · intro x hx hex; exact hwp x (Dict.mem_keys_erase.mp hx).1 hex
+      · intro x y hx hK hne; exact hdp x y (Dict.mem_keys_erase.mp hx).1 hK hne
       · intro x hx
         refine Dict.mem_keys_erase.mpr ⟨hact x (List.mem_cons_of_mem _ hx), ?_⟩
         intro e; subst e
@@ -456,7 +553,7 @@ theorem chainStep_ret {n : Nat} {round32 : ℚ → ℚ} (hr : Monotone round32) 
       | nil =>
         simp only
         right
-        refine ⟨_, rfl, ⟨⟨⟨L, hP⟩, hI⟩, hrow, hnbr, hwp, ?_, ?_, ⟨hisnn, trivial⟩⟩⟩
+        refine ⟨_, rfl, ⟨⟨⟨L, hP⟩, hI⟩, hrow, hnbr, hwn, hdp, ?_, ?_, ⟨hisnn, trivial⟩⟩⟩
         · intro x hx
           simp only [List.mem_cons, List.not_mem_nil, or_false] at hx
           rcases hx with e | e
@@ -475,7 +572,6 @@ theorem chainStep_ret {n : Nat} {round32 : ℚ → ℚ} (hr : Monotone round32) 
           simp only [hszN, hszNN]
           right
           refine ⟨_, rfl, ?_⟩
-          -- notation
           generalize hnneq : (nearest round32 g node k ks).1 = nn at *
           generalize (nearest round32 g node k ks).2 = ms at *
           have hab : node ≠ nn := Ne.symm hisnn.ne
@@ -492,8 +588,8 @@ theorem chainStep_ret {n : Nat} {round32 : ℚ → ℚ} (hr : Monotone round32) 
               else if y = g.next then (K g.nb node x || K g.nb nn x)
               else K g.nb x y := hK
           have hkeys := mem_keys_merge_sizes hszN hszNN
-          have hpa := hwp node hnode ⟨nn, hisnn.ne, hisnn.adj⟩
-          have hpb := hwp nn hnnact ⟨node, hab, by rw [hI.sym]; exact hisnn.adj⟩
+          have eO : wOf (g.merge node nn).outW g.next = wOf g.outW node + wOf g.outW nn := wOf_merge_new _ _ _ _
+          have eI : wOf (g.merge node nn).inW g.next = wOf g.inW node + wOf g.inW nn := wOf_merge_new _ _ _ _
           have hrest'nd : ∀ x ∈ rest', x ≠ node ∧ x ≠ nn := by
             intro x hx
             have h1 := List.nodup_cons.mp hnd
@@ -501,38 +597,14 @@ theorem chainStep_ret {n : Nat} {round32 : ℚ → ℚ} (hr : Monotone round32) 
             constructor
             · intro e; exact h1.1 (by rw [← e]; exact List.mem_cons_of_mem _ hx)
             · intro e; exact h2.1 (by rw [hle, ← e]; exact hx)
-          refine ⟨⟨⟨L', hP'⟩, hnb'⟩, ?_, ?_, ?_, ?_, ?_, ?_⟩
+          refine ⟨⟨⟨L', hP'⟩, hnb'⟩, ?_, ?_, ?_, ?_, ?_, ?_, ?_⟩
           · -- every active node has a row
             intro x hx
             rcases (hkeys x).mp hx with e | ⟨hxo, hxa, hxb⟩
-            · exact ⟨g.next, by rw [e, hKm]; simp [h4, h5]⟩
-            · obtain ⟨y, hy⟩ := hrow x hxo
-              have hxl := active_lt hP hxo
-              have hxz : x ≠ g.next := by omega
-              by_cases hyab : y = node ∨ y = nn
-              · refine ⟨g.next, ?_⟩
-                rw [hKm]
-                have hno : ¬ (x = node ∨ x = nn ∨ g.next = node ∨ g.next = nn) := by
-                  rintro (e | e | e | e)
-                  · exact hxa e
-                  · exact hxb e
-                  · exact h4 e
-                  · exact h5 e
-                rw [if_neg hno, if_neg hxz, if_pos rfl]
-                rcases hyab with e | e
-                · rw [e] at hy; rw [hI.sym] at hy; simp [hy]
-                · rw [e] at hy; rw [hI.sym] at hy; simp [hy]
-              · refine ⟨y, ?_⟩
-                have hyl := (K_lt hI hy).2
-                have hyz : y ≠ g.next := by omega
-                rw [hKm]
-                have hno : ¬ (x = node ∨ x = nn ∨ y = node ∨ y = nn) := by
-                  rintro (e | e | e | e)
-                  · exact hxa e
-                  · exact hxb e
-                  · exact hyab (Or.inl e)
-                  · exact hyab (Or.inr e)
-                rw [if_neg hno, if_neg hxz, if_neg hyz]; exact hy
+            · exact K_get (y := g.next) (by rw [e, hKm]; simp [h4, h5])
+            · obtain ⟨rx, hrx⟩ := hrow x hxo
+              have := mergeNb_isSome g.nb node nn g.next hxa hxb (by rw [hrx]; rfl)
+              exact Option.isSome_iff_exists.mp this
           · -- neighbours of active nodes are active
             intro x y hx hKxy hne
             rw [hKm] at hKxy
@@ -554,46 +626,91 @@ theorem chainStep_ret {n : Nat} {round32 : ℚ → ℚ} (hr : Monotone round32) 
                   rcases (hkeys x).mp hx with e | ⟨hxo, _, _⟩
                   · exact absurd e hxz
                   · exact hnbr x y hxo hKxy hne
-          · -- weights of nodes with a neighbour are positive
-            intro x hx hex
-            rcases (hkeys x).mp hx with e | ⟨hxo, hxa, hxb⟩
-            · rw [e]
-              have eO : wOf (g.merge node nn).outW g.next = wOf g.outW node + wOf g.outW nn := wOf_merge_new _ _ _ _
-              have eI : wOf (g.merge node nn).inW g.next = wOf g.inW node + wOf g.inW nn := wOf_merge_new _ _ _ _
-              rw [eO, eI]
-              exact ⟨by linarith [hpa.1, hpb.1], by linarith [hpa.2, hpb.2]⟩
-            · have hxl := active_lt hP hxo
-              have hxz : x ≠ g.next := by omega
-              have e1 : wOf (g.merge node nn).outW x = wOf g.outW x := wOf_merge_other _ _ _ _ _ hxa hxb hxz
-              have e2 : wOf (g.merge node nn).inW x = wOf g.inW x := wOf_merge_other _ _ _ _ _ hxa hxb hxz
-              rw [e1, e2]
-              obtain ⟨y, hyx, hKxy⟩ := hex
-              rw [hKm] at hKxy
-              by_cases hno : x = node ∨ x = nn ∨ y = node ∨ y = nn
-              · rw [if_pos hno] at hKxy; cases hKxy
-              · rw [if_neg hno, if_neg hxz] at hKxy
-                by_cases hyz : y = g.next
-                · rw [if_pos hyz] at hKxy
-                  simp only [Bool.or_eq_true] at hKxy
-                  rcases hKxy with h1 | h1
-                  · exact hwp x hxo ⟨node, Ne.symm hxa, by rw [hI.sym]; exact h1⟩
-                  · exact hwp x hxo ⟨nn, Ne.symm hxb, by rw [hI.sym]; exact h1⟩
-                · rw [if_neg hyz] at hKxy
-                  exact hwp x hxo ⟨y, hyx, hKxy⟩
+          · -- weights stay non-negative
+            intro x
+            by_cases hxz : x = g.next
+            · rw [hxz, eO, eI]
+              exact ⟨by linarith [(hwn node).1, (hwn nn).1], by linarith [(hwn node).2, (hwn nn).2]⟩
+            · by_cases hxg : x = node ∨ x = nn
+              · have e1 : wOf (g.merge node nn).outW x = 0 := wOf_merge_gone _ _ _ _ _ hxg hxz
+                have e2 : wOf (g.merge node nn).inW x = 0 := wOf_merge_gone _ _ _ _ _ hxg hxz
+                rw [e1, e2]; exact ⟨le_refl _, le_refl _⟩
+              · have hxa : x ≠ node := fun e => hxg (Or.inl e)
+                have hxb : x ≠ nn := fun e => hxg (Or.inr e)
+                have e1 : wOf (g.merge node nn).outW x = wOf g.outW x := wOf_merge_other _ _ _ _ _ hxa hxb hxz
+                have e2 : wOf (g.merge node nn).inW x = wOf g.inW x := wOf_merge_other _ _ _ _ _ hxa hxb hxz
+                rw [e1, e2]; exact hwn x
+          · -- denominators of adjacent pairs stay positive
+            intro x y hx hKxy hne
+            rw [hKm] at hKxy
+            by_cases hno : x = node ∨ x = nn ∨ y = node ∨ y = nn
+            · rw [if_pos hno] at hKxy; cases hKxy
+            · rw [if_neg hno] at hKxy
+              have hxa : x ≠ node := fun e => hno (Or.inl e)
+              have hxb : x ≠ nn := fun e => hno (Or.inr (Or.inl e))
+              have hya : y ≠ node := fun e => hno (Or.inr (Or.inr (Or.inl e)))
+              have hyb : y ≠ nn := fun e => hno (Or.inr (Or.inr (Or.inr e)))
+              unfold den
+              by_cases hxz : x = g.next
+              · -- the new node and an old neighbour of one of its parts
+                rw [if_pos hxz] at hKxy
+                have hyz : y ≠ g.next := fun e => hne (by rw [e, hxz])
+                simp only [hyz, decide_false, Bool.false_or, Bool.or_eq_true] at hKxy
+                have e3 : wOf (g.merge node nn).outW y = wOf g.outW y := wOf_merge_other _ _ _ _ _ hya hyb hyz
+                have e4 : wOf (g.merge node nn).inW y = wOf g.inW y := wOf_merge_other _ _ _ _ _ hya hyb hyz
+                rw [hxz, eO, eI, e3, e4]
+                have hn1 : 0 ≤ den g node y := by
+                  unfold den
+                  have := mul_nonneg (hwn node).1 (hwn y).2; have := mul_nonneg (hwn y).1 (hwn node).2; linarith
+                have hn2 : 0 ≤ den g nn y := by
+                  unfold den
+                  have := mul_nonneg (hwn nn).1 (hwn y).2; have := mul_nonneg (hwn y).1 (hwn nn).2; linarith
+                have hsum : (wOf g.outW node + wOf g.outW nn) * wOf g.inW y + wOf g.outW y * (wOf g.inW node + wOf g.inW nn) =
+                    den g node y + den g nn y := by unfold den; ring
+                rw [hsum]
+                rcases hKxy with h1 | h1
+                · have := hdp node y hnode h1 hya; linarith
+                · have := hdp nn y hnnact h1 hyb; linarith
+              · rw [if_neg hxz] at hKxy
+                rcases (hkeys x).mp hx with e | ⟨hxo, _, _⟩
+                · exact absurd e hxz
+                · have e1 : wOf (g.merge node nn).outW x = wOf g.outW x := wOf_merge_other _ _ _ _ _ hxa hxb hxz
+                  have e2 : wOf (g.merge node nn).inW x = wOf g.inW x := wOf_merge_other _ _ _ _ _ hxa hxb hxz
+                  by_cases hyz : y = g.next
+                  · rw [if_pos hyz] at hKxy
+                    simp only [Bool.or_eq_true] at hKxy
+                    rw [hyz, eO, eI, e1, e2]
+                    have hn1 : 0 ≤ den g x node := by
+                      unfold den
+                      have := mul_nonneg (hwn x).1 (hwn node).2; have := mul_nonneg (hwn node).1 (hwn x).2; linarith
+                    have hn2 : 0 ≤ den g x nn := by
+                      unfold den
+                      have := mul_nonneg (hwn x).1 (hwn nn).2; have := mul_nonneg (hwn nn).1 (hwn x).2; linarith
+                    have hsum : wOf g.outW x * (wOf g.inW node + wOf g.inW nn) + (wOf g.outW node + wOf g.outW nn) * wOf g.inW x =
+                        den g x node + den g x nn := by unfold den; ring
+                    rw [hsum]
+                    rcases hKxy with h1 | h1
+                    · have := hdp x node hxo (by rw [hI.sym]; exact h1) (Ne.symm hxa); linarith
+                    · have := hdp x nn hxo (by rw [hI.sym]; exact h1) (Ne.symm hxb); linarith
+                  · rw [if_neg hyz] at hKxy
+                    have e3 : wOf (g.merge node nn).outW y = wOf g.outW y := wOf_merge_other _ _ _ _ _ hya hyb hyz
+                    have e4 : wOf (g.merge node nn).inW y = wOf g.inW y := wOf_merge_other _ _ _ _ _ hya hyb hyz
+                    rw [e1, e2, e3, e4]
+                    exact hdp x y hxo hKxy hne
           · intro x hx
             have hxo := hact x (List.mem_cons_of_mem _ (List.mem_cons_of_mem _ hx))
             obtain ⟨h1, h2⟩ := hrest'nd x hx
             exact (hkeys x).mpr (Or.inr ⟨hxo, h1, h2⟩)
           · exact (List.nodup_cons.mp (List.nodup_cons.mp hnd).2).2
           · -- the rest of the chain is still a chain of nearest neighbours
-            refine nnChain_merge hr hI hab ha hb hpa hpb rest' (nnChain_tail (nnChain_tail hnn)) hrest'nd ?_
-            intro x hx hex
-            exact hwp x (hact x (List.mem_cons_of_mem _ (List.mem_cons_of_mem _ hx))) hex
+            refine nnChain_merge hr hI hab ha hb hwn rest' (nnChain_tail (nnChain_tail hnn)) hrest'nd ?_
+            intro x hx y hKxy hyx
+            exact hdp x y (hact x (List.mem_cons_of_mem _ (List.mem_cons_of_mem _ hx))) hKxy hyx
         · -- the chain grows
           have hne : last ≠ (nearest round32 g node k ks).1 := by simpa using hlast
           simp only [hlast, if_false]
           right
-          refine ⟨_, rfl, ⟨⟨⟨L, hP⟩, hI⟩, hrow, hnbr, hwp, ?_, ?_, ⟨hisnn, hnn⟩⟩⟩
+          refine ⟨_, rfl, ⟨⟨⟨L, hP⟩, hI⟩, hrow, hnbr, hwn, hdp, ?_, ?_, ⟨hisnn, hnn⟩⟩⟩
           · intro x hx
             rcases List.mem_cons.mp hx with e | e
             · rw [e]; exact hnnact
@@ -602,7 +719,6 @@ theorem chainStep_ret {n : Nat} {round32 : ℚ → ℚ} (hr : Monotone round32) 
             exact nn_not_in_chain hI hnn hnd hisnn (fun l r' e => by
               simp only [List.cons.injEq] at e
               rw [← e.1]; exact Ne.symm hne)
-
 
 /-- the chain loop, with enough fuel, ends without raising, all clusters consumed -/
 theorem chainLoop_ret {n : Nat} {round32 : ℚ → ℚ} (hr : Monotone round32) (n0 : Nat) :
